@@ -74,7 +74,14 @@ ENUM_MAC = "; plus, on every fifth run, the next case of a bounded-depth enumera
 for _p in ("C04", "C05", "C06", "C07", "C08", "C09", "C10", "C11", "C12", "C20"):
     TECH_SUFFIX[_p] = TECH_SUFFIX.get(_p, "") + ENUM_MAC
 TECH_SUFFIX["C14"] = TECH_SUFFIX.get("C14", "") + "; plus an exhaustive enumeration of undisturbed API call sequences of depth <= 3 (quick) / <= 4 (thorough) over a 26-letter alphabet on each of the five chip variants"
-TECH_SUFFIX["C05"] += "; the device's own uplinks reflected back at it are part of the adversary"
+TECH_SUFFIX["C05"] += "; the device's own uplinks reflected back at it are part of the adversary; radio errors inside the histories (receptions after a failed procedure are judged like any other)"
+TECH_SUFFIX["C04"] += "; RNG streaks, an uplink-only device (downlink queue depth 0), the nb board clock a few seconds before 2^31 / 2^32 ms, SNR / RSSI at the extremes of their ranges"
+TECH_SUFFIX["C09"] += "; RNG streaks (the same number up to 1000 times in a row, then recovery)"
+TECH_SUFFIX["C10"] = TECH_SUFFIX.get("C10", "") + "; nb timer requests are read modulo 2^32 with the board clock started near 2^31 / 2^32 ms"
+TECH_SUFFIX["C20"] = TECH_SUFFIX.get("C20", "") + "; on the nb front-end the stored session is also installed into devices with a past (the running device, after an unanswered join, after an uplink on another session, on another session under the same address)"
+TECH_SUFFIX["C07"] = TECH_SUFFIX.get("C07", "") + "; a panic that only the run with the rejected frames shows is a violation"
+TECH_SUFFIX["C14"] += "; BUSY-wait faults on both chip families; interrupt outcome 'preamble and timeout latched together'; a call that keeps waiting after the chip reported a timeout is a violation"
+TECH_SUFFIX["C18"] = TECH_SUFFIX.get("C18", "") + "; five modulations (incl. SF12/125 kHz with LDRO on the SX1272 register layout); SPI faults that are delivered to the chip and then reported as failed"
 
 
 def main():
